@@ -458,6 +458,10 @@ class Prop(PropBase):
             ck = _sha(case)
             for i, op in enumerate(case["ops"]):
                 o = {}
+                # any earlier multi-threaded step (explicit threads, Dask's default threaded scheduler) may have leaked an
+                # 'error' warning filter through the non-thread-safe warnings.catch_warnings: start every operation clean
+                warnings.resetwarnings()
+                warnings.simplefilter("ignore")
                 try:
                     if op[0] == "read":
                         z = r.read(self._mk(op[1]), self._mk(op[2]), use_dask=True) if op[3] else r.read(self._mk(op[1]), self._mk(op[2]))
@@ -548,6 +552,9 @@ class Prop(PropBase):
                         warnings.simplefilter("ignore")
                         o["dask_same"] = [bool(np.array_equal(np.asarray(g), s)) for g, s in zip(got, solo)]
                         self._events()
+                except Warning as e:  # noqa
+                    # a Warning raised as an exception is the warnings-filter race described above, not a reader result
+                    o = {"warn_race": type(e).__name__}
                 except Exception as e:  # noqa
                     o["err"] = "OutOfBoundsError" if type(e).__name__ == "OutOfBoundsError" else type(e).__name__
                     o["is_eof"] = isinstance(e, EOFError)
@@ -674,6 +681,10 @@ class Prop(PropBase):
         if int(next(rep)) != code["len"]:
             return False
         for op, o in zip(case["ops"], code["ops"]):
+            if "warn_race" in o:
+                for _ in range({"read": 1, "adjacent": 3, "offset_at": 1, "time_at": 1, "threads": 1}.get(op[0], 0)):
+                    next(rep)
+                continue
             if op[0] == "read":
                 ev = o.get("events") if not op[3] else None
                 why = self._check_read(next(rep), o.get("err") or o.get("sig"), info, mode, ev)
@@ -812,6 +823,8 @@ class Prop(PropBase):
             return None
 
         for op, o in zip(case["ops"], code["ops"]):
+            if "warn_race" in o:
+                continue
             if op[0] == "read":
                 ok_kind = all(x["k"] in ("int", "npint", "npint32", "bool") for x in (op[1], op[2]))
                 ov, nv = int(op[1]["v"]), int(op[2]["v"])
